@@ -118,6 +118,14 @@ func main() {
 		bases = append(bases, base{name, d, data})
 	}
 	add("custom-unmarshalers", []byte(grammar.CustomSpec))
+	// references that walk the raw document (deeper than a component, so they are resolved by JSON
+	// pointer over the node tree) through keys that look like numbers, booleans, null and dates
+	add("deep-pointer-references", []byte(`{"openapi":"3.0.3","info":{"title":"t","version":"1"},"paths":{
+ "/pets":{"get":{"operationId":"listPets","responses":{"200":{"description":"ok","content":{"application/json":{"schema":{"type":"array","items":{"type":"object","properties":{"1e3":{"type":"string","maxLength":3},"true":{"type":"integer"},"null":{"type":"boolean"},"2020-01-01":{"type":"number"},"01":{"type":"string","format":"uuid"}}}}}}},"404":{"description":"nf","content":{"application/json":{"schema":{"$ref":"#/paths/~1pets/get/responses/200/content/application~1json/schema/items"}}}}}},
+  "post":{"operationId":"addPet","requestBody":{"content":{"application/json":{"schema":{"$ref":"#/paths/~1pets/get/responses/200/content/application~1json/schema/items/properties/1e3"}}}},
+   "responses":{"200":{"description":"ok","content":{"application/json":{"schema":{"type":"object","properties":{"a":{"$ref":"#/paths/~1pets/get/responses/200/content/application~1json/schema/items/properties/true"},"b":{"$ref":"#/paths/~1pets/get/responses/200/content/application~1json/schema/items/properties/null"},"c":{"$ref":"#/paths/~1pets/get/responses/200/content/application~1json/schema/items/properties/2020-01-01"},"d":{"$ref":"#/paths/~1pets/get/responses/200/content/application~1json/schema/items/properties/01"},"e":{"$ref":"#/components/schemas/Codes/properties/200"}}}}}},
+    "default":{"$ref":"#/paths/~1pets/get/responses/404"}}}}},
+ "components":{"schemas":{"Codes":{"type":"object","properties":{"200":{"type":"string","minLength":2},"4.5":{"type":"integer"}}}}}}`))
 	{
 		schemas, _, comps := grammar.Schemas(false)
 		paths := map[string]any{}
